@@ -280,3 +280,41 @@ pub fn c05_l2_hist_tamper_then_next() {
     kani::cover!(which == 1, "aad flip");
     kani::cover!(which == 2 && pos == 15, "tag flip");
 }
+
+//@h name=c05_l2_hist_three_messages tier=thorough mode=func timeout=3600 desc="three messages sealed from an arbitrary common state; deliveries: #2 (future) => OpenError, #0 => Ok, #2 => OpenError, #1 => Ok, #1 (replay) => OpenError, #0 (old replay) => OpenError, #2 => Ok; after every delivery the receiver position equals start + number of successes and accepted plaintexts are the sealed ones" bounds="key, base nonce, seq <= 2^64-4 symbolic; plaintexts 0..=3 B, aads 0..=2 B; ideal AEAD; unwind 20"
+#[kani::proof]
+#[kani::unwind(20)]
+#[kani::stub(zeroize::optimization_barrier, noop_barrier)]
+pub fn c05_l2_hist_three_messages() {
+    let key: [u8; 16] = kani::any();
+    let base: [u8; 12] = kani::any();
+    let exp: [u8; 8] = kani::any();
+    let seq: u64 = kani::any();
+    kani::assume(seq <= u64::MAX - 3);
+    let mut s = ctx_s_from_parts::<AI, K, M>(&key, &base, &exp, seq, false);
+    let mut r = ctx_r_from_parts::<AI, K, M>(&key, &base, &exp, seq, false);
+    let (m0, p0) = seal_one(&mut s);
+    let (m1, p1) = seal_one(&mut s);
+    let (m2, p2) = seal_one(&mut s);
+    assert!(matches!(deliver(&mut r, &m2.ct, m2.len, &m2.aad, m2.alen, &m2.tag), Err(HpkeError::OpenError)));
+    assert!(r.verif_seq_state() == (seq, false));
+    match deliver(&mut r, &m0.ct, m0.len, &m0.aad, m0.alen, &m0.tag) {
+        Ok(b) => assert!(pt_eq(&b, &p0, m0.len)),
+        Err(_) => assert!(false, "in-sequence message rejected"),
+    }
+    assert!(matches!(deliver(&mut r, &m2.ct, m2.len, &m2.aad, m2.alen, &m2.tag), Err(HpkeError::OpenError)));
+    assert!(r.verif_seq_state() == (seq + 1, false));
+    match deliver(&mut r, &m1.ct, m1.len, &m1.aad, m1.alen, &m1.tag) {
+        Ok(b) => assert!(pt_eq(&b, &p1, m1.len)),
+        Err(_) => assert!(false, "in-sequence message rejected"),
+    }
+    assert!(matches!(deliver(&mut r, &m1.ct, m1.len, &m1.aad, m1.alen, &m1.tag), Err(HpkeError::OpenError)));
+    assert!(matches!(deliver(&mut r, &m0.ct, m0.len, &m0.aad, m0.alen, &m0.tag), Err(HpkeError::OpenError)));
+    assert!(r.verif_seq_state() == (seq + 2, false));
+    match deliver(&mut r, &m2.ct, m2.len, &m2.aad, m2.alen, &m2.tag) {
+        Ok(b) => assert!(pt_eq(&b, &p2, m2.len)),
+        Err(_) => assert!(false, "in-sequence message rejected"),
+    }
+    assert!(r.verif_seq_state() == (seq + 3, false));
+    assert!(!ideal().overflow);
+}
